@@ -19,7 +19,7 @@ from mc.lattice import chunked
 UTC = timezone.utc
 OFFS = (-14 * 60, -330, 0, 345, 14 * 60)
 BOUNDS = {
-    "quick": {"grid": "G1: ~180 anchors x ms {0,1,499,500,999} x 24 durations (rotating offsets); G2: 3 us-binade-edge anchors (2^49,2^50,2^51 us) x all 1000 ms x 12 durations; G3: ~110 durations x 6 anchors x ms {0,999}; G4: data catalogue (34) x 2 anchors; each inserted singly AND in bulk; all three backends", "ownership": "7 write ops x 5 mutations x 5 read ops + metadata/buckets/create/update aliasing histories"},
+    "quick": {"grid": "G1: ~180 anchors x ms {0,1,499,500,999} x 24 durations (rotating offsets); G2: 3 us-binade-edge anchors (2^49,2^50,2^51 us) x all 1000 ms x 12 durations; G3: ~110 durations x 6 anchors x ms {0,999}; G4: data catalogue (34) x 2 anchors; each inserted singly AND in bulk; all three backends", "ownership": "5 write ops x 5 mutations x 3 read ops x 3 mutated objects + metadata/buckets/create/update aliasing histories", "id_uniqueness": "all histories of 5 ops over insert / bulk insert / delete oldest|newest|middle, ids unique and lookup == listing after every op"},
     "thorough": {"grid": "G2 additionally at one anchor per decade 1970..2100, epoch 0 and 2100-12-31T23:59:59, x all 1000 ms x 24 durations; rest as quick"},
 }
 RULE = (
@@ -353,8 +353,63 @@ def _unit_own(backend):
     return u.result()
 
 
+IDOPS = ("ins", "bulk2", "del_oldest", "del_newest", "del_middle")
+
+
+def _unit_ids(args):
+    """id uniqueness under histories: every sequence of <= depth ops over insert / bulk insert /
+    delete (oldest, newest, middle live id); after every op all ids in the listing are unique and
+    non-None and lookup by id returns the listed event"""
+    backend, firsts, depth = args
+    ctx = _G["ctx"]
+    u = Unit()
+    wdir = ctx.wdir()
+    for first in firsts:
+        for rest in itertools.product(IDOPS, repeat=depth - 1):
+            hist = (first,) + rest
+            ds = S.fresh(backend, wdir)
+            S.mk_bucket(ds, "i")
+            b = ds["i"]
+            n = 0
+            u.traces += 1
+            for step, op in enumerate(hist):
+                live = sorted(t[0] for t in S.dump_bucket(ds, "i"))
+                if op == "ins":
+                    n += 1
+                    b.insert(Event(timestamp=T0 + timedelta(seconds=n), duration=1, data={"n": n}))
+                elif op == "bulk2":
+                    b.insert([Event(timestamp=T0 + timedelta(seconds=n + 1), duration=1, data={"n": n + 1}), Event(timestamp=T0 + timedelta(seconds=n + 2), duration=0, data={"n": n + 2})])
+                    n += 2
+                elif live:
+                    tgt = live[0] if op == "del_oldest" else live[-1] if op == "del_newest" else live[len(live) // 2]
+                    b.delete(tgt)
+                else:
+                    break
+                u.evaluations += 1
+                u.transitions += 1
+                dump = S.dump_bucket(ds, "i")
+                ids = [t[0] for t in dump]
+                bad = None
+                if len(set(ids)) != len(ids) or any(i is None for i in ids):
+                    bad = ("ids-not-unique", f"ids in the bucket after {hist[: step + 1]}: {ids}")
+                else:
+                    for t in dump:
+                        e = b.get_by_id(t[0])
+                        if e is None or S.ev_tuple(e) != t:
+                            bad = ("lookup-differs-from-listing", f"after {hist[: step + 1]}: get_by_id({t[0]}) = {None if e is None else S.ev_tuple(e)}, listing {t}")
+                            break
+                if bad:
+                    u.violation(f"{backend}:history:{bad[0]}", f"{backend}: {bad[1]}", {"kind": "ids", "backend": backend, "history": list(hist[: step + 1])}, size=step)
+                    break
+            u.states += 1
+            u.nontrivial += 1 if any(o.startswith("del") for o in hist) else 0
+    u.sample({"kind": "id-uniqueness history", "backend": backend, "history": [firsts[0]] + list(IDOPS[:depth - 1])}, cap=1)
+    S.close_all()
+    return u.result()
+
+
 def _dispatch(x):
-    return _unit_fid(x[1]) if x[0] == "fid" else _unit_own(x[1])
+    return {"fid": _unit_fid, "own": _unit_own, "ids": _unit_ids}[x[0]](x[1])
 
 
 def run(ctx):
@@ -365,6 +420,10 @@ def run(ctx):
     for i in range(0, len(g), B):
         batches.append((i, g[i : i + B]))
     units = [("own", b) for b in S.BACKENDS]
+    depth = 6 if ctx.thorough else 5
+    for backend in S.BACKENDS:
+        for op in IDOPS[:2]:
+            units.append(("ids", (backend, (op,), depth)))
     for backend in S.BACKENDS:
         k = ctx.workers * (5 if backend == "peewee" else 2)
         for ch in chunked(batches, k):
@@ -387,5 +446,23 @@ def run_case(ctx, case):
     if case["kind"] == "own":
         p = own_case(case["backend"], ctx.wdir(), case["w"], case["m"], case["r"], case["victim"])
         return {"violations": [["aliasing", p]] if p else []}
+    if case["kind"] == "ids":
+        r = _unit_ids((case["backend"], (case["history"][0],), 1)) if len(case["history"]) == 1 else None
+        ds = S.fresh(case["backend"], ctx.wdir())
+        S.mk_bucket(ds, "i")
+        b = ds["i"]
+        n = 0
+        for op in case["history"]:
+            live = sorted(t[0] for t in S.dump_bucket(ds, "i"))
+            if op == "ins":
+                n += 1
+                b.insert(Event(timestamp=T0 + timedelta(seconds=n), duration=1, data={"n": n}))
+            elif op == "bulk2":
+                b.insert([Event(timestamp=T0 + timedelta(seconds=n + 1), duration=1, data={"n": n + 1}), Event(timestamp=T0 + timedelta(seconds=n + 2), duration=0, data={"n": n + 2})])
+                n += 2
+            elif live:
+                b.delete(live[0] if op == "del_oldest" else live[-1] if op == "del_newest" else live[len(live) // 2])
+        ids = [t[0] for t in S.dump_bucket(ds, "i")]
+        return {"ids": ids, "violations": [["ids-not-unique", str(ids)]] if len(set(ids)) != len(ids) else []}
     res = [x for x in meta_cases(case["backend"], ctx.wdir()) if x[0] == case["name"]]
     return {"violations": [[n, p] for n, p in res if p]}
